@@ -1509,6 +1509,10 @@ func main() {
 		os.Exit(c11(os.Args[2:]))
 	case "fault":
 		os.Exit(faultMode(os.Args[2:]))
+	case "dx":
+		os.Exit(dxMode(os.Args[2:]))
+	case "dxreplay":
+		os.Exit(dxReplay(os.Args[2:]))
 	case "sys":
 		cf, o := hxlib.ParseCommon("c11", os.Args[2:], nil)
 		rerunBase = fmt.Sprintf("hx-c11 sys -tier %s", cf.Tier)
